@@ -518,7 +518,21 @@ Inductive hstep :=
 | HSetData (data : str)            (* seq.data = text (plain attribute) *)
 | HSetFts (fts : list rawft)       (* seq.fts = FeatureList([...]) *)
 | HNew (data : str) (fts : list rawft)    (* continue on a fresh object with the same id *)
-| HShare (idx : nat).              (* seq.fts = seq.fts + [Feature('shared', locs=seq.fts[idx % n].locs)]: two features sharing Location objects *)
+| HShare (idx : nat)               (* seq.fts = seq.fts + [Feature('shared', locs=seq.fts[idx % n].locs)]: two features sharing Location objects *)
+(* round 7: the in-place str methods of the BioSeq.str namespace (seq.py:36-170: self.data = self.data.<method>(...)) *)
+| HStrCase (k : Z)                 (* seq.str.upper() (0) / lower() (1) / swapcase() (2) *)
+| HStrReplace (old new : str)      (* seq.str.replace(old, new), old a single character *)
+| HStrStrip (side : Z) (chars : str).   (* seq.str.strip(chars) (0) / lstrip(chars) (1) / rstrip(chars) (2) *)
+
+(* str.swapcase / str.replace(c, new) / str.lstrip(chars) on ASCII *)
+Definition swap1 (c : byte) : byte := if byte_eqb (upper1 c) c then lower1 c else upper1 c.
+Definition replace1 (c : byte) (new : str) (s : str) : str := flat_map (fun x => if byte_eqb x c then new else [x]) s.
+Fixpoint lstrip_chars (chars s : str) : str :=
+  match s with
+  | [] => []
+  | c :: r => if has c chars then lstrip_chars chars r else s
+  end.
+Definition rstrip_chars (chars s : str) : str := rev (lstrip_chars chars (rev s)).
 
 Definition set_item (s : str) (i : Z) (c : str) : res str :=
   let len := Z.of_nat (length s) in
@@ -565,6 +579,18 @@ Definition hstep_run (q : bioseq) (st : hstep) : bool * val * bioseq :=
       | Some f => (true, VNone, mkSeq (sdata q) (sfts q ++ [mkFt (Some (bs "shared"%bs)) (flocs f)]))
       | None => (true, VE E_Value, q)
       end
+  | HStrCase k =>
+      (ascii_str (sdata q), VNone,
+       mkSeq (if k =? 0 then upper (sdata q) else if k =? 1 then lower (sdata q) else map swap1 (sdata q)) (sfts q))
+  | HStrReplace old new =>
+      match old with
+      | [c] => (ascii_str new && ascii_str old, VNone, mkSeq (replace1 c new (sdata q)) (sfts q))
+      | _ => (false, VNone, q)
+      end
+  | HStrStrip side chars =>
+      (ascii_str chars, VNone,
+       mkSeq (if side =? 0 then rstrip_chars chars (lstrip_chars chars (sdata q))
+              else if side =? 1 then lstrip_chars chars (sdata q) else rstrip_chars chars (sdata q)) (sfts q))
   end.
 Fixpoint hist_run (q : bioseq) (steps : list hstep) : bool * list val :=
   match steps with
